@@ -613,6 +613,12 @@ func (u *Unit) evalCall(env *Env, e *Expr) Val {
 					fn = t
 				}
 			}
+			if u.eng.funcKey(fn) != want {
+				// a literal that does nothing but pass its own parameters on to that function
+				if t := forwardsTo(fn); t != nil {
+					fn = t
+				}
+			}
 			return &Scalar{T: BoolLit(u.eng.funcKey(fn) == want), Typ: types.Typ[types.Bool]}
 		}
 		return &Scalar{T: TFalse, Typ: types.Typ[types.Bool]}
@@ -701,4 +707,47 @@ var builtinUFuns = map[string]*UFun{
 	"CtxTimeout":   {"CtxTimeout", []Sort{SInt}, SInt},
 	"DoneCh":       {"DoneCh", []Sort{SInt}, SInt},
 	"Pow":          {"Pow", []Sort{SReal, SReal}, SReal},
+}
+
+// forwardsTo: fn is a function literal whose whole body is one call of a package function with exactly its own
+// parameters, in order, as the (non-receiver) arguments, followed by a return of nothing or of that call's results.
+func forwardsTo(fn *ssa.Function) *ssa.Function {
+	if fn.Parent() == nil || len(fn.Blocks) != 1 {
+		return nil
+	}
+	var call *ssa.Call
+	for _, in := range fn.Blocks[0].Instrs {
+		switch x := in.(type) {
+		case *ssa.DebugRef, *ssa.Return:
+		case *ssa.UnOp:
+			// load of a captured receiver
+		case *ssa.Call:
+			if call != nil {
+				return nil
+			}
+			call = x
+		default:
+			return nil
+		}
+	}
+	if call == nil {
+		return nil
+	}
+	tgt := call.Call.StaticCallee()
+	if tgt == nil {
+		return nil
+	}
+	args := call.Call.Args
+	if tgt.Signature.Recv() != nil && len(args) > 0 {
+		args = args[1:]
+	}
+	if len(args) != len(fn.Params) {
+		return nil
+	}
+	for i, a := range args {
+		if a != ssa.Value(fn.Params[i]) {
+			return nil
+		}
+	}
+	return tgt
 }
